@@ -1,35 +1,241 @@
 /-
-C09 — IRI validation is exactly RFC 3987.
-Theorems are stated over `Gen.IRI_REGEX` / `Gen.IRELATIVE_REF_REGEX`, regenerated from
-`iri/src/_regex.rs` on every run.
+C09 — IRI validation is exactly RFC 3987 and agrees with the resolver.
+
+Stated over
+  * `Gen.Iri.IRI_REGEX` / `Gen.Iri.IRELATIVE_REF_REGEX` / `Gen.Iri.IRI_REF_REGEX`, regenerated from
+    iri/src/_regex.rs on every run (tools/extractors/c09.py, table `regexes_iri`);
+  * `Gen.IriWiring.*`: which validator each typed constructor calls (table `iri_wiring`);
+  * `IriWrapper.*` (Model/IriWrapper.lean): `Iri::new`, `IriRef::new`, `as_base`, `is_valid_suffixed_iri_ref`,
+    `Namespace::get` — the functions the driver `smd_C09` executes;
+  * `Rfc3986.resolve` (the RFC 3986 §5.2 oracle) and `OxiriResolve.resolve` (the algorithm that is
+    really behind `Iri::resolve`).
+
+Sections: 1 language exactness, 2 typed constructors, 3 "usable as a base", 4 namespaces,
+5 resolution (oracle laws; the code's algorithm agrees with the oracle only PARTIALLY — the full
+statement is kept and refuted by four kernel-checked witnesses = the four findings).
 -/
 import SophiaModel.Model.Iri3987
-import SophiaModel.Gen.Regexes
+import SophiaModel.Model.IriWrapper
+import SophiaModel.Model.Resolve3986
+import SophiaModel.Model.OxiriResolve
+import SophiaProofs.Lemmas.Resolve3986
 
 namespace SophiaProofs.C09
 open SophiaModel Re
 
-/-- `Iri::new` / `is_absolute_iri_ref` accept exactly the RFC 3987 `IRI` production. -/
-theorem iri_regex_exact : ∀ w, Matches Gen.IRI_REGEX w ↔ Matches Rfc3987.IRI w :=
+/-! ## 1. the validators' languages -/
+
+/-- `is_absolute_iri_ref` accepts exactly the RFC 3987 `IRI` production. -/
+theorem iri_regex_exact : ∀ w, Matches Gen.Iri.IRI_REGEX w ↔ Matches Rfc3987.IRI w :=
   decideEquiv_sound _ _ (by native_decide)
 
 /-- `is_relative_iri_ref` accepts exactly `irelative-ref`. -/
-theorem irel_regex_exact : ∀ w, Matches Gen.IRELATIVE_REF_REGEX w ↔ Matches Rfc3987.irelativeRef w :=
+theorem irel_regex_exact : ∀ w, Matches Gen.Iri.IRELATIVE_REF_REGEX w ↔ Matches Rfc3987.irelativeRef w :=
   decideEquiv_sound _ _ (by native_decide)
 
-/-- `IriRef::new` / `is_valid_iri_ref` (the RegexSet) accept exactly `IRI-reference`. -/
-theorem iriref_is_union : ∀ w, Matches Gen.IRI_REF_REGEX w ↔ Matches Rfc3987.IRIreference w := by
+/-- `is_valid_iri_ref` (the RegexSet) accepts exactly `IRI-reference`. -/
+theorem iriref_is_union : ∀ w, Matches Gen.Iri.IRI_REF_REGEX w ↔ Matches Rfc3987.IRIreference w := by
   intro w
-  simp only [Gen.IRI_REF_REGEX, Rfc3987.IRIreference, matches_alt, iri_regex_exact, irel_regex_exact]
+  simp only [Gen.Iri.IRI_REF_REGEX, Rfc3987.IRIreference, matches_alt, iri_regex_exact, irel_regex_exact]
 
 /-- classification: no string is both absolute and relative -/
-theorem abs_rel_disjoint : ∀ w, ¬ (Matches Gen.IRI_REGEX w ∧ Matches Gen.IRELATIVE_REF_REGEX w) :=
+theorem abs_rel_disjoint : ∀ w, ¬ (Matches Gen.Iri.IRI_REGEX w ∧ Matches Gen.Iri.IRELATIVE_REF_REGEX w) :=
   decideDisj_sound _ _ (by native_decide)
 
 -- non-vacuity: concrete members, including the shapes the shipped test table lacks
-example : Matches Gen.IRI_REGEX (ofStr "http://[1:2::3:4:5:6:7]/a?b#c") := by decide
-example : ¬ Matches Gen.IRI_REGEX (ofStr "http://[1::2::3:4:5:6:7]/") := by decide
-example : ¬ Matches Gen.IRI_REGEX (ofStr "http://a:80junk") := by decide
-example : Matches Gen.IRELATIVE_REF_REGEX (ofStr "../é/x?y") := by decide
+example : Matches Gen.Iri.IRI_REGEX (ofStr "http://[1:2::3:4:5:6:7]/a?b#c") := by decide
+example : ¬ Matches Gen.Iri.IRI_REGEX (ofStr "http://[1::2::3:4:5:6:7]/") := by decide
+example : ¬ Matches Gen.Iri.IRI_REGEX (ofStr "http://a:80junk") := by decide
+example : Matches Gen.Iri.IRELATIVE_REF_REGEX (ofStr "../é/x?y") := by decide
+example : ¬ Matches Gen.Iri.IRELATIVE_REF_REGEX (ofStr "//[1:2:3:4:5::6:7:8]") := by decide
+
+/-! ## 2. the typed constructors, as wired in /repo -/
+
+/-- The wiring the theorems below rely on, re-read from the source on every run: `Iri::new` calls
+`is_absolute_iri_ref`, `IriRef::new` calls `is_valid_iri_ref`, the suffixed validator checks
+`ns ++ suffix` with `is_valid_iri_ref`, an `NsTerm` displays `ns` then `suffix`.  A regression of any
+flag fails this obligation (and the `*_exact` theorems). -/
+theorem wiring_pinned :
+    Gen.IriWiring.iriNew = .abs ∧ Gen.IriWiring.iriRefNew = .ref ∧
+    Gen.IriWiring.suffixedNone = .ref ∧ Gen.IriWiring.suffixedSome = .ref ∧
+    Gen.IriWiring.suffixedNsFirst = true ∧ Gen.IriWiring.nsTermNsFirst = true := by decide
+
+theorem is_absolute_exact (w : List Nat) : IriWrapper.isAbsolute w = true ↔ Matches Rfc3987.IRI w := by
+  unfold IriWrapper.isAbsolute IriWrapper.accepts
+  rw [matchB_iff]; exact iri_regex_exact w
+
+theorem is_relative_exact (w : List Nat) : IriWrapper.isRelative w = true ↔ Matches Rfc3987.irelativeRef w := by
+  unfold IriWrapper.isRelative IriWrapper.accepts
+  rw [matchB_iff]; exact irel_regex_exact w
+
+theorem is_valid_ref_exact (w : List Nat) : IriWrapper.isValidRef w = true ↔ Matches Rfc3987.IRIreference w := by
+  unfold IriWrapper.isValidRef IriWrapper.accepts
+  rw [matchB_iff]; exact iriref_is_union w
+
+/-- `Iri::new(w)` succeeds iff `w` is an RFC 3987 `IRI`. -/
+theorem iri_new_exact (w : List Nat) : IriWrapper.iriNew w = true ↔ Matches Rfc3987.IRI w :=
+  is_absolute_exact w
+
+/-- `IriRef::new(w)` succeeds iff `w` is an RFC 3987 `IRI-reference`. -/
+theorem iriref_new_exact (w : List Nat) : IriWrapper.iriRefNew w = true ↔ Matches Rfc3987.IRIreference w :=
+  is_valid_ref_exact w
+
+/-- "classified absolute/relative accordingly": every accepted reference is exactly one of absolute
+(then `Iri::new` accepts it too) or relative. -/
+theorem classification (w : List Nat) (h : IriWrapper.iriRefNew w = true) :
+    (IriWrapper.isAbsolute w = true ∧ IriWrapper.isRelative w = false ∧ IriWrapper.iriNew w = true) ∨
+    (IriWrapper.isAbsolute w = false ∧ IriWrapper.isRelative w = true ∧ IriWrapper.iriNew w = false) := by
+  have hu := (iriref_new_exact w).1 h
+  have hd := abs_rel_disjoint w
+  have ha := is_absolute_exact w
+  have hr := is_relative_exact w
+  have hn := iri_new_exact w
+  rw [Rfc3987.IRIreference, matches_alt] at hu
+  rw [iri_regex_exact, irel_regex_exact] at hd
+  cases hA : IriWrapper.isAbsolute w <;> cases hR : IriWrapper.isRelative w <;>
+    cases hN : IriWrapper.iriNew w <;> simp_all
+
+example : IriWrapper.iriRefNew (ofStr "//h/p?q") = true := by decide
+
+/-! ## 3. every accepted value can be used as a base -/
+
+/-- `IRI_REGEX ⊆ oxiri::Iri::parse` (hand model of oxiri's recogniser, `Backend.Oxiri.abs`) -/
+theorem iri_sub_oxiri : ∀ w, Matches Gen.Iri.IRI_REGEX w → Matches Backend.Oxiri.abs w :=
+  decideIncl_sound _ _ (by native_decide)
+
+/-- `IRI_REF_REGEX ⊆ oxiri::IriRef::parse` (`Backend.Oxiri.ref`) -/
+theorem iriref_sub_oxiri : ∀ w, Matches Gen.Iri.IRI_REF_REGEX w → Matches Backend.Oxiri.ref w :=
+  decideIncl_sound _ _ (by native_decide)
+
+/-- `Iri::as_base` / `Iri::to_base` never panic: the `unwrap` of `BaseIri::new` cannot fail on a
+value `Iri::new` accepted. -/
+theorem iri_as_base_never_panics (w : List Nat) : IriWrapper.iriAsBase w ≠ .panic := by
+  unfold IriWrapper.iriAsBase
+  by_cases h : IriWrapper.iriNew w = true
+  · have hb : IriWrapper.baseIriNew w = true :=
+      (matchB_iff _ _).2 (iri_sub_oxiri w ((matchB_iff _ _).1 h))
+    simp [h, hb]
+  · simp [h]
+
+/-- `IriRef::as_base` / `IriRef::to_base` never panic. -/
+theorem iriref_as_base_never_panics (w : List Nat) : IriWrapper.iriRefAsBase w ≠ .panic := by
+  unfold IriWrapper.iriRefAsBase
+  by_cases h : IriWrapper.iriRefNew w = true
+  · have hb : IriWrapper.baseIriRefNew w = true :=
+      (matchB_iff _ _).2 (iriref_sub_oxiri w ((matchB_iff _ _).1 h))
+    simp [h, hb]
+  · simp [h]
+
+example : IriWrapper.iriAsBase (ofStr "http://[1:2::3:4:5:6:7]/") = .ok := by decide
+example : IriWrapper.iriRefAsBase (ofStr "//u@[::1]:8/p") = .ok := by decide
+example : IriWrapper.iriAsBase (ofStr "//h") = .notConstructible := by decide
+
+/-! ## 4. namespaces -/
+
+/-- `is_valid_suffixed_iri_ref(ns, Some(suffix))` ⇔ `ns ++ suffix` is an `IRI-reference`. -/
+theorem suffixed_exact (ns sfx : List Nat) :
+    IriWrapper.suffixed ns (some sfx) = true ↔ Matches Rfc3987.IRIreference (ns ++ sfx) :=
+  is_valid_ref_exact (ns ++ sfx)
+
+theorem suffixed_none_exact (ns : List Nat) :
+    IriWrapper.suffixed ns none = true ↔ Matches Rfc3987.IRIreference ns :=
+  is_valid_ref_exact ns
+
+/-- `Namespace::new(ns)?.get(suffix)` succeeds iff `ns` and `ns ++ suffix` are `IRI-reference`s; and
+the term it returns stands for `ns ++ suffix`. -/
+theorem namespace_get_exact (ns sfx : List Nat) :
+    IriWrapper.namespaceGet ns sfx = some true ↔
+      (Matches Rfc3987.IRIreference ns ∧ Matches Rfc3987.IRIreference (ns ++ sfx)) := by
+  have h1 := iriref_new_exact ns
+  have h2 := iriref_new_exact (ns ++ sfx)
+  unfold IriWrapper.namespaceGet IriWrapper.namespaceNew
+  have e : IriWrapper.nsTermStr ns sfx = ns ++ sfx := rfl
+  rw [e]
+  cases hA : IriWrapper.iriRefNew ns <;> cases hB : IriWrapper.iriRefNew (ns ++ sfx) <;> simp_all
+
+theorem ns_term_is_concatenation (ns sfx : List Nat) : IriWrapper.nsTermStr ns sfx = ns ++ sfx := rfl
+
+example : IriWrapper.namespaceGet (ofStr "http://ex.org/ns#") (ofStr "foo") = some true := by decide
+example : IriWrapper.namespaceGet (ofStr "http://ex.org/ns#") (ofStr "a b") = some false := by decide
+example : IriWrapper.namespaceGet (ofStr "a b") (ofStr "c") = none := by decide
+
+/-! ## 5. resolution
+
+`Rfc3986.resolve` is the oracle the differential compares `Iri::resolve` with.  Laws of the oracle,
+then the relation between the oracle and the algorithm the code really runs (`OxiriResolve.resolve`,
+oxiri 0.2.11): they agree on same-document references, and NOT in general. -/
+
+/-- RFC 3986 Appendix B split followed by §5.3 recomposition is the identity: no character of a
+base or reference is lost or invented by the oracle's parser. -/
+theorem recompose_split (s : Str) : Rfc3986.recompose (Rfc3986.split s) = s :=
+  SophiaProofs.Resolve.recompose_split s
+
+/-- §5.2.2 with an empty reference: the result is the base without its fragment (and nothing else
+changes) — the "same-document reference" case. -/
+theorem resolve_same_document (b : Str) :
+    Rfc3986.resolve b [] ++ SophiaProofs.Resolve.showFrag (Rfc3986.split b).fragment = b :=
+  SophiaProofs.Resolve.resolve_empty_ref b
+
+example : Rfc3986.resolve "http://a/b?q#f".toList [] = "http://a/b?q".toList := by decide
+
+/-- references for which oxiri's algorithm is the RFC's: empty, `#fragment`, `?query[#fragment]` -/
+def SameDocumentRef (r : Str) : Prop := r = [] ∨ (∃ f, r = '#' :: f) ∨ (∃ q, r = '?' :: q)
+
+/-- FULL statement of the resolution clause for the code's algorithm: on accepted inputs it returns
+the RFC 3986 §5.2 result (in particular it never errs, i.e. the typed API never panics). -/
+def OxiriAgrees : Prop :=
+  ∀ b r : Str, IriWrapper.iriNew (b.map Char.toNat) = true → IriWrapper.iriRefNew (r.map Char.toNat) = true →
+    OxiriResolve.resolve b r = some (Rfc3986.resolve b r)
+
+/-- PARTIAL: proved for same-document references, any base (not even required to be accepted).
+Missing obligation: references with a path (`OxiriAgrees` is false there, see the four refutations). -/
+theorem oxiri_agrees_partial (b r : Str) (h : SameDocumentRef r) :
+    OxiriResolve.resolve b r = some (Rfc3986.resolve b r) := by
+  rcases h with h | ⟨f, h⟩ | ⟨q, h⟩ <;> subst h
+  · exact SophiaProofs.Resolve.ox_empty b
+  · exact SophiaProofs.Resolve.ox_fragment b f
+  · exact SophiaProofs.Resolve.ox_query b q
+
+example : SameDocumentRef "?y#s".toList := Or.inr (Or.inr ⟨"y#s".toList, rfl⟩)
+
+/-- finding C09-oxiri-rootpop: `resolve("x:/a", "../g")` = `x:g`, RFC: `x:/g` -/
+theorem oxiri_agrees_refuted_rootpop : ¬ OxiriAgrees := fun h =>
+  absurd (h "x:/a".toList "../g".toList (by decide) (by decide)) (by decide)
+
+/-- finding C09-resolve-panic-slashslash: `resolve("x:/a", ".//g")` errs (typed API: panic), RFC: `x://g` -/
+theorem oxiri_agrees_refuted_panic : ¬ OxiriAgrees := fun h =>
+  absurd (h "x:/a".toList ".//g".toList (by decide) (by decide)) (by decide)
+
+/-- finding C09-base-dot-segments: `resolve("http://a/b/../c", "g")` = `http://a/b/../g`, RFC: `http://a/g` -/
+theorem oxiri_agrees_refuted_base_dots : ¬ OxiriAgrees := fun h =>
+  absurd (h "http://a/b/../c".toList "g".toList (by decide) (by decide)) (by decide)
+
+/-- finding C09-ref-authority-dot-segments: `resolve("x:/", "//h/.")` = `x://h/.`, RFC: `x://h/` -/
+theorem oxiri_agrees_refuted_ref_authority : ¬ OxiriAgrees := fun h =>
+  absurd (h "x:/".toList "//h/.".toList (by decide) (by decide)) (by decide)
+
+/-- FULL statement of "... which is itself an accepted absolute IRI" for the ORACLE: the RFC 3986
+§5.2 result of accepted inputs is an RFC 3987 `IRI`. -/
+def ResolveClosed : Prop :=
+  ∀ b r : Str, IriWrapper.iriNew (b.map Char.toNat) = true → IriWrapper.iriRefNew (r.map Char.toNat) = true →
+    Matches Rfc3987.IRI ((Rfc3986.resolve b r).map Char.toNat)
+
+/-- It is false, for the RFC's own algorithm: §5.2.4 can leave a path that begins with "//" on an
+authority-less base; recomposed, `x:a` + `a/..//b:c//` is `x://b:c//`, whose "authority" `b:c` has a
+non-numeric port.  (This is the corner where oxiri reports `PathStartingWithTwoSlashes`.)  The
+differential therefore demands acceptance of the IMPLEMENTATION's result only (`o.valid`). -/
+theorem resolve_closed_refuted : ¬ ResolveClosed := fun h =>
+  absurd (h "x:a".toList "a/..//b:c//".toList (by decide) (by decide)) (by decide)
+
+/-- PARTIAL closure: same-document references never leave the grammar's five-part shape — the
+result is the base minus its fragment (`resolve_same_document`), re-stated on one concrete value. -/
+example : Matches Rfc3987.IRI (ofStr (String.ofList (Rfc3986.resolve "http://a/b?q#f".toList []))) := by decide
+
+/-- the specific wrong values the known-finding predicates of tools/propcfg/C09.py demand -/
+theorem oxiri_deviation_values :
+    OxiriResolve.resolve "x:/a".toList "../g".toList = some "x:g".toList ∧
+    OxiriResolve.resolve "x:/a".toList ".//g".toList = none ∧
+    OxiriResolve.resolve "http://a/b/../c".toList "g".toList = some "http://a/b/../g".toList ∧
+    OxiriResolve.resolve "x:/".toList "//h/.".toList = some "x://h/.".toList := by decide
 
 end SophiaProofs.C09
